@@ -31,6 +31,7 @@ ASSUMPTIONS = [
 
 
 K4 = 'grad-arccos-band:%s:second-stack-angle-within-4.5e-4-of-zero'
+K5 = 'grad-dead-zone:positional:state-exactly-at-rest'
 
 
 def config(tier):
@@ -205,6 +206,16 @@ def run(job, mon):
     mon.err('gradient_vs_fd:' + pname, best)
     if kind != 'generic':
       mon.count('fd_compared_at_special_state:' + pname)
+    if best > tol and pname == 'positional' and kind == 'zero_velocity' and (
+        dead_zone(z, gr, fd, l0)):
+      # known finding K5: at a state exactly at rest the position pass of the
+      # positional pipeline sits inside safe_norm's `allclose(x, 0)` dead zone
+      # (width 1e-8): autodiff differentiates the flat spot (0) while any
+      # finite perturbation sees the constraint response around it
+      mon.count('ev:gradient_matches_finite_differences:' + pname)
+      mon.known(K5, lambda: wit(z=z, grad=gr, fd=fd, err=best, kind=kind),
+                monitor='gradient_matches_finite_differences:' + pname)
+      return
     if best > tol and pname != 'generalized' and in_arccos_band(z):
       # known finding K4: the custom JVP of safe_arccos clips its argument at
       # 1 - 1e-7, so the derivative of a reported second stack angle is damped
@@ -216,6 +227,16 @@ def run(job, mon):
       return
     mon.check('gradient_matches_finite_differences:' + pname, best <= tol,
               lambda: wit(z=z, grad=gr, fd=fd, err=best, kind=kind))
+
+  def dead_zone(z, gr, fd, l0):
+    """True if, for the worst component, a central difference with h = 3e-9
+    (inside safe_norm's 1e-8 neighbourhood) follows the autodiff slope while
+    the ordinary finite difference does not: a flat spot at the point."""
+    i = int(np.argmax(np.abs(fd - gr)))
+    e = np.zeros(len(gr))
+    e[i] = 3e-9
+    slope_small = (float(lj(z + e)) - float(lj(z - e))) / 6e-9
+    return abs(slope_small - gr[i]) <= 0.1 * abs(fd[i] - gr[i])
 
   def in_arccos_band(z):
     """True if, at init or after any of the steps, the second coordinate of
